@@ -255,7 +255,9 @@ impl<'a, G: AffineRepr> Iterator for AggregatedGensIter<'a, G> {
     type Item = &'a G;
 
     fn next(&mut self) -> Option<Self::Item> {
-        if self.gen_idx >= self.n {
+        // skip to the next party that still has generators to yield
+        // (a loop, not a single step: with n == 0 every party is exhausted at once)
+        while self.party_idx < self.m && self.gen_idx >= self.n {
             self.gen_idx = 0;
             self.party_idx += 1;
         }
